@@ -1197,4 +1197,61 @@ theorem read_dates_noasof (log : List Version) (h : Ordered log) (st : Store) (h
   · rintro ⟨v, hv, _, hd⟩; exact ⟨v, hv, hd⟩
   · rintro ⟨v, hv, hd⟩; exact ⟨v, hv, hM v hv, hd⟩
 
+/-! ### batches as the code runs them (review s5): `read_spec_batches` is about the total `historyL`; `historyLE` folds the raising
+    `biMergeLE` that the driver compares with the code -/
+
+/-- some `bi_merge` call of the batch history raises: a non-empty batch `b` brings the number of versions to two or more while all
+    of them - those of the earlier calls `pre` and those of `b` - are empty series (`pd.concat([])`, `_bitemporal.py:288`) -/
+def BatchRaises (batches : List (List Version)) : Prop :=
+  ∃ pre b post, batches = pre ++ b :: post ∧ b ≠ [] ∧ 2 ≤ (pre.flatten ++ b).length ∧ ∀ v ∈ pre.flatten ++ b, v.ts = []
+
+theorem batchRaises_iff (batches : List (List Version)) : BatchRaises batches ↔ RaisesFrom [] batches := by
+  simp only [BatchRaises, RaisesFrom, CallRaises, List.nil_append]
+
+/-- **when a history of batches returns**: `historyLE` is the `ValueError` exactly when some call raises (`BatchRaises`: the call
+    that makes it two or more versions, all empty); every other history returns the store `historyL` describes. -/
+theorem historyLE_eq (batches : List (List Version)) :
+    (BatchRaises batches → historyLE batches = .error .value) ∧
+    (¬ BatchRaises batches → historyLE batches = .ok (historyL batches)) := by
+  rw [batchRaises_iff, historyLE_eq_foldl, historyL_eq]
+  exact historyLE_foldl batches Option.none [] ⟨by simp, by intro s hs; cases hs⟩
+
+/-- a history of batches whose very first version is not empty never raises -/
+theorem not_batchRaises_of_first (batches : List (List Version)) (v : Version) (hv : batches.flatten.head? = some v)
+    (hne : v.ts ≠ []) : ¬ BatchRaises batches := by
+  rintro ⟨pre, b, post, rfl, hb, _, hall⟩
+  have hp : pre.flatten ++ b ≠ [] := by simp [hb]
+  have e : (pre ++ b :: post).flatten = (pre.flatten ++ b) ++ post.flatten := by simp
+  rw [e, List.head?_append] at hv
+  cases hh : (pre.flatten ++ b).head? with
+  | none => exact hp (List.head?_eq_none_iff.mp hh)
+  | some u =>
+    rw [hh, Option.some_or, Option.some.injEq] at hv
+    subst hv
+    exact hne (hall u (List.mem_of_mem_head? (by rw [hh]; rfl)))
+
+/-- **refinement for the batch histories that return**: for every stamp-ordered history, however it is cut into `bi_merge` calls,
+    if no call raises the code's history returns a store, and that store answers as-of reads and first reads as the publication log
+    does.  (`read_spec_batches` says the same of the total `historyL`, also on histories on which the code raises.) -/
+theorem read_spec_batches_returns (batches : List (List Version)) (h : Ordered batches.flatten) (hne : ¬ BatchRaises batches)
+    (T : Option Int) :
+    ∃ st, historyLE batches = .ok (some st) ∧ biRead st T (-1) = specRead batches.flatten T ∧
+      biRead st T 0 = specFirst batches.flatten T := by
+  obtain ⟨st, hst, hr⟩ := read_spec_batches batches h T
+  exact ⟨st, by rw [(historyLE_eq batches).2 hne, hst], hr⟩
+
+/-- ... and the other `Ordered` batch histories raise: `[[10: empty, 11: empty], [12: ...]]` is `Ordered`, `read_spec_batches` yields a
+    store for it, the code (and `historyLE`) raise -/
+theorem historyLE_raises : ∃ batches, Ordered batches.flatten ∧ historyLE batches = .error .value ∧
+    ∃ st, historyL batches = some st := by
+  refine ⟨[[⟨10, []⟩, ⟨11, []⟩], [⟨12, [(1, some 5)]⟩]], ⟨by simp, by decide, by decide⟩, ?_, ?_⟩
+  · exact (historyLE_eq _).1 ⟨[], [⟨10, []⟩, ⟨11, []⟩], [[⟨12, [(1, some 5)]⟩]], rfl, by simp, by simp, by simp⟩
+  · obtain ⟨st, hst, _⟩ := read_spec_batches [[⟨10, []⟩, ⟨11, []⟩], [⟨12, [(1, some 5)]⟩]] ⟨by simp, by decide, by decide⟩ Option.none
+    exact ⟨st, hst⟩
+
+-- the hypotheses of `read_spec_batches_returns` on a history with an empty version inside a later batch
+example : Ordered ([[⟨10, [(1, some 5)]⟩], [⟨11, []⟩, ⟨11, [(1, Option.none), (2, some 7)]⟩], []] : List (List Version)).flatten ∧
+    ¬ BatchRaises [[⟨10, [(1, some 5)]⟩], [⟨11, []⟩, ⟨11, [(1, Option.none), (2, some 7)]⟩], []] :=
+  ⟨⟨by simp, by decide, by decide⟩, not_batchRaises_of_first _ ⟨10, [(1, some 5)]⟩ rfl (by simp)⟩
+
 end Pyg.Props.C17
